@@ -59,11 +59,11 @@ fn any_stats<S: Src, const Z: usize, const G: usize, const EG: usize, const R: u
 }
 
 /// update_many(n, count), n < 2^NBITS, count < 2^CBITS (totals fit in 64 bits)
-pub fn update_step<S: Src, const Z: usize, const G: usize, const EG: usize, const R: usize, const P: usize, const NBITS: u32, const CBITS: u32>(s: &mut S) {
+pub fn update_step<S: Src, const Z: usize, const G: usize, const EG: usize, const R: usize, const P: usize, const NBITS: u32, const CBITS: u32, const MANY: bool>(s: &mut S) {
     let st0 = any_stats::<S, Z, G, EG, R, P>(s);
     let n = s.u64();
     let count = s.u64();
-    let single = s.bool();
+    let single = !MANY;
     s.assume(n < (1u64 << NBITS) && count < (1u64 << CBITS));
     let c = if single { 1 } else { count };
     let mut st = st0;
@@ -100,8 +100,7 @@ pub fn update_step<S: Src, const Z: usize, const G: usize, const EG: usize, cons
         assert_eq!(st.pi[i], st0.pi[i] + len_pi(n, i + 2) as u64 * c, "pi[i] tracks pi_(i+2)");
         i += 1;
     }
-    crate::cover!(s, !single && count > 1000, "multiplicity");
-    crate::cover!(s, single, "single update");
+    crate::cover!(s, single || count > 10, "multiplicity");
 }
 
 fn fields_sum<const Z: usize, const G: usize, const EG: usize, const R: usize, const P: usize>(
@@ -268,11 +267,15 @@ where
 
 crate::harnesses! {
     #[kani::unwind(22)]
-    c15_update_default_n12 (quick, "CodesStats<10,20,10,10,10> (default)", "any stats value (fields<2^56), n<2^12, count<2^16, update and update_many") => update_step::<_, 10, 20, 10, 10, 10, 12, 16>;
+    c15_update_default_n12 (quick, "CodesStats<10,20,10,10,10> (default)", "any stats value (fields<2^56), update(n), n<2^12") => update_step::<_, 10, 20, 10, 10, 10, 12, 1, false>;
     #[kani::unwind(22)]
-    c15_update_default_n16 (thorough, "CodesStats<10,20,10,10,10> (default)", "any stats value (fields<2^56), n<2^16, count<2^16") => update_step::<_, 10, 20, 10, 10, 10, 16, 16>;
+    c15_update_default_n16 (thorough, "CodesStats<10,20,10,10,10> (default)", "any stats value (fields<2^56), update(n), n<2^16") => update_step::<_, 10, 20, 10, 10, 10, 16, 1, false>;
     #[kani::unwind(22)]
-    c15_update_reduced_n40 (quick, "CodesStats<2,3,2,2,2>", "any stats value (fields<2^56), n<2^40, count<2^12") => update_step::<_, 2, 3, 2, 2, 2, 40, 12>;
+    c15_update_many_default (thorough, "CodesStats<10,20,10,10,10> (default)", "any stats value (fields<2^56), update_many(n, count), n<2^12, count<2^8") => update_step::<_, 10, 20, 10, 10, 10, 12, 8, true>;
+    #[kani::unwind(22)]
+    c15_update_reduced_n40 (quick, "CodesStats<2,3,2,2,2>", "any stats value (fields<2^56), update(n), n<2^40") => update_step::<_, 2, 3, 2, 2, 2, 40, 1, false>;
+    #[kani::unwind(22)]
+    c15_update_many_reduced (quick, "CodesStats<2,3,2,2,2>", "any stats value (fields<2^56), update_many(n, count), n<2^12, count<2^8") => update_step::<_, 2, 3, 2, 2, 2, 12, 8, true>;
     #[kani::unwind(22)]
     c15_merge_default (quick, "CodesStats<10,20,10,10,10> (default)", "add, +=, +, sum over symbolic statistics (fields<2^56)") => merge_step::<_, 10, 20, 10, 10, 10>;
     #[kani::unwind(22)]
